@@ -373,6 +373,8 @@ class Outcome(object):
         self.samples = []
         self.known_lines = []
         self.notes = []
+        self.bulk_nontrivial = 0     # inputs covered by sweep cases (plugin.weight)
+        self.bulk_model = 0
 
 
 def run_check(plugin, tier, seed, replay=None):
@@ -476,6 +478,13 @@ def run_check(plugin, tier, seed, replay=None):
                 out.oracle_failures.append((c, msg))
             if plugin.nontrivial(c, impl):
                 out.nontrivial.add(json.dumps(c, sort_keys=True))
+            # a case that stands for a whole chunk of a sweep says how many inputs it covered:
+            # plugin.weight(case, impl) -> None | (evaluations, distinct non-trivial, model comparisons)
+            w = plugin.weight(c, impl) if hasattr(plugin, 'weight') else None
+            if w:
+                out.evaluations += w[0] - 1
+                out.bulk_nontrivial += w[1]
+                out.bulk_model += w[2]
             if len(out.samples) < 8 and (i % max(1, len(cases) // 8) == 0):
                 out.samples.append({'case': c, 'impl': impl if impl is None else str(impl)[:200],
                                     'model': model_ans.get(i)})
@@ -565,11 +574,11 @@ def run_check(plugin, tier, seed, replay=None):
             'theorems': out.theorems,
             'axioms_per_theorem': out.axioms,
             'evaluations': out.evaluations,
-            'distinct_nontrivial': len(out.nontrivial),
+            'distinct_nontrivial': len(out.nontrivial) + out.bulk_nontrivial,
             'rule': getattr(plugin, 'RULE', ''),
             'samples': out.samples or [{'note': 'no cases'}],
             'case_kinds': out.kinds,
-            'traces_validated_against_impl': len(model_ans) if replay is None or True else 0,
+            'traces_validated_against_impl': len(model_ans) + out.bulk_model,
             'disagreements_checked': len(out.disagreements),
             'oracle_failures': len(out.oracle_failures),
             'fingerprints_changed': changed_fps,
